@@ -40,6 +40,7 @@ type FuncContract struct {
 	Requires    []*Clause
 	Ensures     []*Clause
 	Assigns     []*Clause // nil = not specified
+	Locals      []string  // the function's declared locals in source order when the contract was written (positional fallback for renamed locals)
 	BodyAssigns []*Clause // wider frame the body is checked against (trusted contracts whose callers see a narrower frame)
 	HasAssign   bool
 	Loops       map[int]*LoopSpec
@@ -313,6 +314,12 @@ func (cs *ContractSet) ParseContractFile(path, pkgPath string) error {
 					return fail(err)
 				}
 				cur.Assigns = append(cur.Assigns, &Clause{Text: part, E: e, Line: l.no, File: path})
+			}
+		case "locals":
+			for _, n := range strings.Split(strings.Trim(strings.TrimSpace(rest), "()"), ",") {
+				if n = strings.TrimSpace(n); n != "" {
+					cur.Locals = append(cur.Locals, n)
+				}
 			}
 		case "bodyassigns":
 			for _, part := range splitTop(rest, ',') {
